@@ -515,6 +515,12 @@ class FixedWidthBinning(BinningBase):
             if not self._align:
                 self._shift = value - self._times_min * self.bin_width
             self._bin_count = 1
+            # The division above is rounded: make sure the edges (as computed
+            # from times_min) really enclose the value.
+            if self.first_edge > value:
+                self._times_min -= 1
+            elif self.last_edge <= value:
+                self._times_min += 1
             self._bins = None
             self._numpy_bins = None
             return ()
@@ -524,11 +530,17 @@ class FixedWidthBinning(BinningBase):
                 add_left = int(np.ceil((self.numpy_bins[0] - value) / self.bin_width))
                 self._times_min -= add_left
                 self._bin_count += add_left
+                if self.first_edge > value:  # Rounding of the division
+                    add_left += 1
+                    self._times_min -= 1
+                    self._bin_count += 1
             elif value >= self.numpy_bins[-1]:
                 add_right = (value - self.numpy_bins[-1]) / self.bin_width
                 add_right = int(np.ceil(add_right))
                 self._bin_count += add_right
-                if self.last_edge == value and not includes_right_edge:
+                if self.last_edge < value or (
+                    self.last_edge == value and not includes_right_edge
+                ):
                     add_right += 1
                     self._bin_count += 1
             if add_left or add_right:
